@@ -156,7 +156,7 @@ def axis(rng, n, lo, hi, safe=True, linear=False):
         if linear:
             ls = sorted(rng.uniform(lo, hi) for _ in range(n))
             xs = [_sig(l) for l in ls]
-            if not all(b - a > 0.02 * (hi - lo) for a, b in zip(xs, xs[1:])):
+            if not all(b - a > 0.1 * (hi - lo) / n for a, b in zip(xs, xs[1:])):
                 continue
             return xs
         ls = sorted(rng.uniform(lo, hi) for _ in range(n))
@@ -222,14 +222,19 @@ def gen_table(rng, shape_kind, dims, gap=None):
             a, b, c, d, e = dims
             qref = _sig(10 ** rng.uniform(-15, -13))
 
-            def q(k):
-                # smooth and slowly varying in linear space: the cubic through these knots stays positive
+            def q(xs):
+                # smooth and slowly varying in the (linear) coordinate: the cubic through these knots stays positive
                 c0, c1, c2 = rng.uniform(-0.2, 0.2), rng.uniform(-0.25, 0.25), rng.uniform(-0.1, 0.1)
-                return [_sig(qref * 10 ** (c0 + c1 * (i / max(1, k - 1)) + c2 * (i / max(1, k - 1)) ** 2)) for i in range(k)]
+                span = (xs[-1] - xs[0]) or 1.0
+                return [_sig(qref * 10 ** (c0 + c1 * ((x - xs[0]) / span) + c2 * ((x - xs[0]) / span) ** 2)) for x in xs]
 
-            ms[m] = dict(eb=ax(0, a, 2.5, 5.5), ti=axis(rng, b, 0.5, 4.5), ni=axis(rng, c, 17, 21),
-                         z=axis(rng, d, 1.0, 6.0, linear=True), b=axis(rng, e, 0.2, 9.0, linear=True),
-                         qeb=smooth(rng, (a,), -15, -13), qti=q(b), qni=q(c), qz=q(d), qb=q(e), qref=qref)
+            t0, n0 = 10 ** rng.uniform(0.5, 3.0), 10 ** rng.uniform(17, 20)
+            ti = axis(rng, b, t0, t0 * rng.uniform(3, 30), linear=True)
+            ni = axis(rng, c, n0, n0 * rng.uniform(3, 30), linear=True)
+            z = axis(rng, d, 1.0, 6.0, linear=True)
+            bf = axis(rng, e, 0.2, 9.0, linear=True)
+            ms[m] = dict(eb=ax(0, a, 2.5, 5.5), ti=ti, ni=ni, z=z, b=bf,
+                         qeb=smooth(rng, (a,), -15, -13), qti=q(ti), qni=q(ni), qz=q(z), qb=q(bf), qref=qref)
         return dict(metastables=ms)
     raise ValueError(shape_kind)
 
@@ -732,8 +737,10 @@ def numeric_stream(ctx, cat, plan):
             d = dict(desc, args=args, point=kind, info=info, implementation=[ist, iv])
             # -------- K: model vs implementation
             agree = ist == mst
-            if agree and ist == 'ok' and kind in ('knot', 'nonpos'):
+            if agree and ist == 'ok' and kind == 'knot':
                 agree = close(iv, mv, 1e-9, 0.0)
+            if agree and ist == 'ok' and kind == 'nonpos':
+                agree = (iv == 0.0) == (mv == 0.0)
             if not agree:
                 ctx.disagreements += 1
                 ctx.count('disagreement:' + kind)
